@@ -429,9 +429,9 @@ func TestC12(t *testing.T) {
 		c := &all[i]
 		switch c.Mode {
 		case "observer":
-			runObserver(t, c)
+			withDistinctInstants(t, c, runObserver)
 		case "flows":
-			runFlows(t, c)
+			withDistinctInstants(t, c, runFlows)
 		case "queue":
 			runQueue(t, c)
 		default:
